@@ -16,6 +16,9 @@ import XdslModel.Names
 import XdslModel.Clone
 import XdslModel.RegAlloc
 import XdslModel.Literals
+import XdslModel.IRApi
+import XdslModel.RewriteDriver
+import XdslModel.ParallelMov
 /-!
 Model registry for the driver: `MODEL <name>` selects a `(state, lineStep)` pair.
 A continuation-passing encoding is used because the state types differ.
@@ -44,6 +47,9 @@ def run? (name : String) : Option Runner :=
   | "clone" => some fun k => k Clone.lineStep {}
   | "regalloc" => some fun k => k RegAlloc.lineStep ()
   | "literals" => some fun k => k Literals.lineStep ()
+  | "ir_store" => some fun k => k IR.lineStep {}
+  | "rewrite_driver" => some fun k => k RewriteDriver.lineStep {}
+  | "parallel_mov" => some fun k => k ParallelMov.lineStep ()
   | _ => none
 
 end Xdsl.Registry
